@@ -6,7 +6,7 @@
    byte-compares.  What is proved is where the environment enters the model explicitly. *)
 From Coq Require Import String List Permutation.
 From CMinx Require Import Base.Str Model.Path Model.Naming Model.Pipeline Model.Walk
-     Proofs.WalkFacts Proofs.WalkFacts2 Proofs.RunFacts Proofs.NamingFacts.
+     Proofs.WalkFacts Proofs.WalkFacts2 Proofs.RunFacts Proofs.NamingFacts Proofs.PathFacts.
 Import ListNotations.
 
 (* a different order of directory listings: the same set of (path, content) pairs *)
@@ -44,3 +44,18 @@ Theorem C17_run_is_concatenation :
   forall runs, forallb run_ok runs = true -> run_inputs runs = concat runs.
 Proof. exact run_inputs_concat. Qed.
 Print Assumptions C17_run_is_concatenation.
+
+(* the default prefix basename (abspath cwd input) is the directory's name however the input is
+   spelled: name, name/, . from inside, ./name, absolutely from any cwd, ../name from a sibling *)
+Theorem C17_default_prefix_spelling_independent :
+  forall cc n m anycwd,
+    forallb comp_plain cc = true -> comp_plain n = true -> comp_plain m = true ->
+    let b := basename (abspath (abs_of cc) n) in
+    b = n
+    /\ basename (abspath (abs_of cc) (n ++ [slash])) = b
+    /\ basename (abspath (abs_of (cc ++ [n])) [dot]) = b
+    /\ basename (abspath (abs_of cc) ([dot; slash] ++ n)) = b
+    /\ basename (abspath anycwd (abs_of (cc ++ [n]))) = b
+    /\ basename (abspath (abs_of (cc ++ [m])) (dotdot ++ [slash] ++ n)) = b.
+Proof. exact default_prefix_spelling_independent. Qed.
+Print Assumptions C17_default_prefix_spelling_independent.
